@@ -140,6 +140,13 @@ impl World {
         Ix::new("set_fee_rate_by_delegated_fee_authority", "SetFeeRateByDelegatedFeeAuthority", wa::SetFeeRateByDelegatedFeeAuthority { whirlpool: p.key, adaptive_fee_tier: self.atier_key(&p.cfg, p.tier_index), delegated_fee_authority: delegated }.to_account_metas(None), wi::SetFeeRateByDelegatedFeeAuthority { fee_rate: rate }.data(), json!({"pool": pool, "cfg": p.cfg, "rate": rate}))
     }
 
+    /// delegated fee authority recorded in the adaptive fee tier of a pool
+    pub fn pool_fee_tier_delegate(&self, pool: &str) -> Pubkey {
+        let p = &self.pools[pool];
+        let a = &self.bank.accts[&self.atier_key(&p.cfg, p.tier_index)];
+        Pubkey::new_from_array(a.data[8 + 32 + 2 + 2 + 32..8 + 32 + 2 + 2 + 64].try_into().unwrap())
+    }
+
     // ---------------- config extension and token badges
     pub fn ix_init_config_extension(&mut self, cfg: &str) -> Ix {
         let k = self.ext_key(cfg);
